@@ -29,6 +29,7 @@ class H:
 @dataclass
 class Prop:
     harnesses: List[H]
+    jobs: int = field(default=12, kw_only=True)
     functions: List[str]
     bounds: str
     outside: str
@@ -36,9 +37,14 @@ class Prop:
 
 
 PROPS = {}
+EXTRA_DEPS = {"tower-resilience-fallback": ["tokio"]}
 # pkg -> [(source file under src/, harness file in harness/<pkg>/, cfg predicate)]: the harness file becomes a
 # child module of that source file's module (private fields reachable)
 INJECT = {
+    "tower-resilience-circuitbreaker": [("circuit.rs", "in_circuit.rs", "kani")],
+    "tower-resilience-ratelimiter": [("limiter.rs", "in_limiter.rs", "kani")],
+    "tower-resilience-core": [("aimd.rs", "in_aimd.rs", "kani")],
+    "tower-resilience-adaptive": [("algorithm.rs", "in_algorithm.rs", "kani"), ("service.rs", "in_service.rs", "kani")],
     "tower-resilience-retry": [("budget.rs", "in_budget.rs", 'all(kani, feature = "verif-hooks")')],
 }
 
@@ -93,6 +99,177 @@ PROPS["C14"] = Prop(
 )
 
 # ---------------------------------------------------------------------------
+# C03 / C04 / C09 circuit breaker kernel
+# ---------------------------------------------------------------------------
+CB = "tower-resilience-circuitbreaker"
+_cb = lambda n, what, bound, **kw: H("circuit::verif_kani_in_circuit::" + n, CB, what, bound, playback=False, **kw)
+CB_BOUND = ("ARBITRARY pre-state satisfying the representation invariant (one inductive step, so histories of any length and any "
+            "number of callers); window 1..=3, minimum calls 1..=4, permitted 1..=3, thresholds any f64 in [0,1], slow-call detection on/off, "
+            "durations any whole ms up to 100 s, clock anywhere")
+def _cbfam(fn, what, quick, **kw):
+    out = []
+    for wt, ns in (("count", range(4)), ("time", range(3))):
+        for n in ns:
+            tiers = ("quick", "thorough") if (wt, n) in quick else ("thorough",)
+            out.append(_cb(f"{fn}_{wt}_n{n}", f"{what} [{wt}-based window, {n} calls already in the window]", CB_BOUND, tiers=tiers, **kw))
+    return out
+Q_ALL = {("count", 0), ("count", 1), ("count", 2), ("count", 3), ("time", 0), ("time", 1)}
+PROPS["C03"] = Prop(jobs=6,
+    harnesses=_cbfam("c03_open_rejects", "open + wait not elapsed => try_acquire false, state/timer untouched; else half-open", Q_ALL, timeout=600)
+            + _cbfam("c03_late_results", "outcomes recorded while open neither close the breaker nor move its timer", {("count", 2), ("time", 1)}, timeout=900),
+    functions=["tower_resilience_circuitbreaker::circuit::Circuit::{try_acquire,record_success,record_failure,transition_to,evaluate_window}"],
+    bounds=CB_BOUND, outside="window sizes > 3; the service-level wiring (call() consults try_acquire before touching the inner service) is a separate protocol harness",
+    assumptions=["Instant::now stubbed by a virtual clock; catch_unwind stubbed (no unwinding in Kani)",
+                 "every Circuit operation runs under the breaker's mutex (lib.rs), so sequences of operations are the interleavings"],
+)
+PROPS["C04"] = Prop(jobs=6,
+    harnesses=_cbfam("c04_step", "one step of every operation from an arbitrary state obeys the documented machine", Q_ALL, timeout=900)
+            + _cbfam("c04_metrics", "metrics() agrees with state and window", {("count", 2), ("time", 2)}, timeout=600),
+    functions=["Circuit::{record_success,record_failure,try_acquire,force_open,force_closed,reset,transition_to,evaluate_window,metrics,record_count_based,cleanup_old_records,time_based_stats}"],
+    bounds=CB_BOUND, outside="window sizes > 3, more than 2 records in a time-based pre-state",
+    assumptions=["Instant::now stubbed by a virtual clock; catch_unwind stubbed", "representation invariant as written in any_circuit()"],
+)
+PROPS["C09"] = Prop(jobs=6,
+    harnesses=[
+        _cb("c09_overlapping_count", "KNOWN-FINDING witness: all permits held by in-flight trial calls, one more caller must be rejected",
+            "arbitrary half-open pre-state, any config", expect="known", timeout=600),
+        _cb("c09_overlapping_time", "same, time-based window", "as above", expect="known", timeout=600),
+    ] + _cbfam("c04_step", "inductive step: half-open admits iff completed trial calls < permitted; success counts, closes at permitted; failure re-opens",
+               {("count", 0), ("count", 2), ("time", 0)}, timeout=900),
+    functions=["Circuit::{try_acquire (HalfOpen branch), record_success, record_failure, transition_to}"],
+    bounds=CB_BOUND,
+    outside="overlapping trial calls are a recorded finding (known_findings.json), decided separately by the witness harnesses",
+    assumptions=["Instant::now / catch_unwind stubs", "a trial call 'reaches the wrapped service' iff try_acquire returned true (wiring checked under C03/C20)"],
+)
+
+# ---------------------------------------------------------------------------
+# C01 / C07 bulkhead protocol
+# ---------------------------------------------------------------------------
+BH = "tower-resilience-bulkhead"
+_bh = lambda n, what, bound, **kw: H("verif_kani::c01::" + n, BH, what, bound, models=("tokio",), profile="service", playback=False, mem_gb=30, **kw)
+BH_BOUND = ("ONE call future; up to 3 schedule steps (then dropped), each = advance the virtual clock by any amount <= 40 s and poll, or drop the future; "
+            "max_wait in {None, 0, any <= 60 s}; max_concurrent_calls 1..=1000; semaphore answers per mode; inner future completes at any poll "
+            "with any ok/err value or never")
+_bh_h = [
+    _bh("one_call_any_availability", "per-caller protocol P1-P3, admission in the poll that grants the slot, exact timeout, transparency; semaphore grants at the solver's choice at every poll", BH_BOUND, timeout=2400),
+]
+PROPS["C01"] = Prop(harnesses=_bh_h,
+    functions=["tower_resilience_bulkhead::service::Bulkhead::{new,poll_ready,call} (the compiled async state machine)", "BulkheadLayer::layer"],
+    bounds=BH_BOUND, outside="product of several call futures (does not finish in CBMC: 14 GB at 2 callers x 4 steps); panicking inner calls (Kani has no unwinding; the "
+    "drop-at-any-point schedule exercises the same RAII release path); more than 3 polls of one call",
+    assumptions=["tokio::sync::Semaphore, tokio::time::timeout replaced by the contract model in /verif/models/tokio (environment mode)",
+                 "composition (not solver-checked): semaphore contract (<= N permits outstanding) + protocol P1-P3 for every caller => <= N requests inside the inner service",
+                 "Instant::now -> virtual clock; catch_unwind stubbed; service profile: semantic assertions only (no pointer/overflow checks)"])
+PROPS["C07"] = Prop(harnesses=_bh_h, functions=PROPS["C01"].functions, bounds=BH_BOUND, outside=PROPS["C01"].outside, assumptions=PROPS["C01"].assumptions)
+
+# ---------------------------------------------------------------------------
+# C13 adaptive limiter
+# ---------------------------------------------------------------------------
+CORE = "tower-resilience-core"
+ADAPT = "tower-resilience-adaptive"
+PROPS["C13"] = Prop(
+    harnesses=[
+        H("aimd::verif_kani_in_aimd::aimd_limit_in_bounds_step", CORE, "AimdController: from any limit in [min,max] every operation stores a limit in [min,max]",
+          "min <= max <= 2^32, any initial/increase, decrease_factor any f64 in [0,1], record_successes(any count)", timeout=600),
+        H("algorithm::verif_kani_in_algorithm::vegas_limit_in_bounds_failure", ADAPT, "Vegas::record_failure keeps the limit in bounds", "arbitrary internal state, min <= max <= 2^32", models=("tokio",), timeout=600),
+        H("algorithm::verif_kani_in_algorithm::vegas_limit_in_bounds_adjust", ADAPT, "Vegas::adjust_limit keeps the limit in bounds, unit steps", "arbitrary RTT statistics (any u64), any alpha/beta", models=("tokio",), timeout=900),
+        H("algorithm::verif_kani_in_algorithm::vegas_update_rtt_keeps_limit", ADAPT, "Vegas::update_rtt does not touch the limit", "any latency <= 1 h", models=("tokio",), timeout=600),
+        H("algorithm::verif_kani_in_algorithm::aimd_wrapper_limit_in_bounds", ADAPT, "Aimd algorithm wrapper keeps the limit in bounds", "any config in the bound", models=("tokio",), timeout=600),
+        H("verif_kani::c13::in_flight_exact_one_call", ADAPT, "AdaptiveService: readiness iff in_flight < limit; in_flight returns to its previous value on completion, error and drop; transparency",
+          "one call, <= 3 polls or drop at any point, any limit 1..=1000, any in-flight count of other clones, any inner outcome", models=("tokio",), profile="service", playback=False, timeout=1800, mem_gb=24),
+    ],
+    functions=["tower_resilience_core::aimd::AimdController::{new,record_success,record_failure,record_successes,reset}",
+               "tower_resilience_adaptive::algorithm::{Vegas::{new,record_failure,adjust_limit,update_rtt},Aimd::{record_success,record_failure}}",
+               "tower_resilience_adaptive::service::AdaptiveService::{new,poll_ready,call} + AdaptiveFuture"],
+    bounds="limits min <= max <= 2^32 (above 2^53 `current as f64` rounds and is outside the claim); one operation from an arbitrary state; "
+           "service: one call, <= 3 polls, drop at any point",
+    outside="limits above 2^32; panicking inner calls (no unwinding in Kani - the drop path is the same RAII guard); several calls of one clone in flight at once",
+    assumptions=["interleavings: every limit update is one load + one store, so an arbitrary pre-state in [min,max] covers every interleaving of any number of threads",
+                 "tokio::sync::Semaphore replaced by the model (the service only calls add_permits)", "Instant::now -> virtual clock"],
+)
+
+# ---------------------------------------------------------------------------
+# C19 chaos
+# ---------------------------------------------------------------------------
+CHAOS = "tower-resilience-chaos"
+_ch = lambda n, what, bound, **kw: H("verif_kani::c19::" + n, CHAOS, what, bound, models=("tokio", "rand"), profile="service", playback=False, mem_gb=24, **kw)
+PROPS["C19"] = Prop(
+    harnesses=[
+        _ch("one_request_all_rolls", "error/latency decisions, latency range, skip of the inner call, transparency at 0, always-fail at 1, draw count",
+            "one request; error rate and latency rate any f64 in [0,1]; every roll in [0,1); min/max latency any whole ms <= 100 s (min <,=,> max); any seed; <= 3 polls with an arbitrary advance in between", timeout=1800),
+        _ch("deterministic_in_seed_and_order", "clones share one advancing stream; same seed + same order => same decisions and latencies (self-composition)",
+            "2 requests through 2 clones, replayed on a second service; stream = 8 arbitrary values", timeout=2400, tiers=("thorough",)),
+    ],
+    functions=["tower_resilience_chaos::service::Chaos::{new,poll_ready,call}", "ChaosConfig::create_rng", "CustomErrorFn::{inject_error,error_rate}"],
+    bounds="one request (two for determinism), <= 4 polls each, rates/rolls all of [0,1], latency bounds whole ms <= 100 s",
+    outside="sub-millisecond latency bounds (the layer truncates), more than two requests, that a real seeded StdRng is a deterministic function of its seed (rand's contract)",
+    assumptions=["rand replaced by the contract model: a draw is any value of its documented range; a StdRng is a position in a stream fixed by its seed",
+                 "tokio::time::sleep replaced by the virtual-clock model", "Instant::now -> virtual clock; catch_unwind stubbed"],
+)
+
+# ---------------------------------------------------------------------------
+# C17 fallback
+# ---------------------------------------------------------------------------
+FB = "tower-resilience-fallback"
+_fb = lambda n, what, **kw: H("verif_kani::c17::" + n, FB, what,
+    "one request, any inner outcome (ok(v)/err(e), any 32-bit values), any request, predicate absent/present (any bit-mask predicate) set before or after the strategy, backup ok/failing",
+    models=("tokio",), profile="service", playback=False, mem_gb=20, timeout=1500, **kw)
+PROPS["C17"] = Prop(
+    harnesses=[_fb("strategy_value", "static value strategy"), _fb("strategy_value_fn", "value function strategy"),
+               _fb("strategy_from_error", "from-error strategy"), _fb("strategy_from_request_error", "from-request-and-error strategy"),
+               _fb("strategy_backup_service", "backup service strategy (ok and failing)"), _fb("strategy_exception", "error transformation strategy")],
+    functions=["tower_resilience_fallback::Fallback::{new,poll_ready,call}", "FallbackConfigBuilder::{value,value_fn,from_error,from_request_error,service,exception,handle,build}", "FallbackLayer::layer"],
+    bounds="one request per harness, one harness per strategy; all 32-bit request/response/error values; predicate = any bit-mask test",
+    outside="responses/errors that are not plain 32-bit values; several requests; event listeners (none registered)",
+    assumptions=["the fallback crate does not use tokio on this path; Instant::now -> virtual clock; catch_unwind stubbed", "inner and backup futures complete at their first poll"],
+)
+
+# ---------------------------------------------------------------------------
+# C02 / C15 rate limiter
+# ---------------------------------------------------------------------------
+RL = "tower-resilience-ratelimiter"
+_rlk = lambda n, what, bound, **kw: H("limiter::verif_kani_in_limiter::" + n, RL, what, bound, models=("tokio",), playback=False, **kw)
+_rls = lambda n, what, bound, **kw: H("verif_kani::c02::" + n, RL, what, bound, models=("tokio",), profile="service", playback=False, mem_gb=24, **kw)
+RL_BOUND = "ONE try_acquire from an ARBITRARY state satisfying the representation invariant (so every history and any number of callers); limit, period, timeout, clock symbolic (whole ms; limit <= 10^6 fixed / <= 1000 counter / <= 3 log)"
+_rl_h = [
+    _rlk("fixed_window_step", "fixed window: refresh only after a full period, a grant consumes one of <= limit permits, wait/reject decisions", RL_BOUND, timeout=600),
+    _rlk("fixed_idle_recovers", "fixed window: after two idle periods a full window is available", RL_BOUND, timeout=600),
+    _rlk("sliding_log_step_n0", "sliding log: grants dropped only when expired, grant iff < limit unexpired", RL_BOUND + "; 0 entries in the log", timeout=900),
+    _rlk("sliding_log_step_n1", "same, 1 entry", RL_BOUND, timeout=900),
+    _rlk("sliding_log_step_n2", "same, 2 entries", RL_BOUND, timeout=900),
+    _rlk("sliding_log_step_n3", "same, 3 entries", RL_BOUND, timeout=1200, tiers=("thorough",)),
+    _rlk("sliding_counter_step", "sliding counter: rotation only after a full bucket, grants counted, <= limit per bucket (f64 weights bit-exact)", RL_BOUND, timeout=900),
+    _rlk("counter_idle_recovers", "sliding counter: empty after two idle periods", RL_BOUND, timeout=600),
+    _rlk("acquire_admitted_iff_granted_fixed", "acquire(): admitted iff its own try_acquire consumed a permit; rejected took nothing; one sleep <= timeout",
+         "one acquire() future, <= 3 polls, between polls any clock advance and up to 2 try_acquire by other callers; limit <= 3", timeout=1500),
+    _rls("call_wiring_fixed", "RateLimiter::call: admitted -> inner exactly once; rejected -> RateLimited, inner untouched", "one call, <= 3 polls, interference by one other caller per step; fixed window", timeout=1800),
+    _rls("call_wiring_sliding_log", "same, sliding log", "as above", timeout=1800, tiers=("thorough",)),
+    _rls("call_wiring_sliding_counter", "same, sliding counter", "as above", timeout=1800, tiers=("thorough",)),
+]
+PROPS["C02"] = Prop(harnesses=_rl_h,
+    functions=["limiter::{FixedWindowState,SlidingLogState,SlidingCounterState}::{try_acquire,refresh,maybe_rotate_bucket,estimate_wait_time}",
+               "limiter::SharedRateLimiter::acquire (compiled async fn)", "RateLimiter::{new,poll_ready,call}"],
+    bounds=RL_BOUND + "; acquire()/call(): one future, <= 3 polls",
+    outside="products of several acquire() futures (do not finish); sliding-log limits > 3; the composition 'grants respect the window (kernel) + admitted => own grant (acquire) + admitted => one inner call (call)' is an argument",
+    assumptions=["Instant::now -> virtual clock, tokio::time::sleep -> virtual-clock model", "all access to the window state is try_acquire under the std mutex"])
+PROPS["C15"] = Prop(harnesses=_rl_h, functions=PROPS["C02"].functions, bounds=PROPS["C02"].bounds, outside=PROPS["C02"].outside, assumptions=PROPS["C02"].assumptions)
+
+# ---------------------------------------------------------------------------
+# C05 retry
+# ---------------------------------------------------------------------------
+_r5 = lambda n, what, **kw: H("verif_kani::c05::" + n, RETRY, what,
+    "one request; max_attempts 0..=3 (fixed or per-request); outcome sequence of <= 3 symbolic results (ok / retryable / non-retryable error); backoff per retry any whole ms <= 10 s; budget grants symbolic per retry; polls: at every backoff one at an arbitrary instant before the deadline and one at it",
+    models=("tokio", "rand"), profile="service", playback=False, mem_gb=24, timeout=2400, **kw)
+PROPS["C05"] = Prop(
+    harnesses=[_r5("plain", "no predicate, no budget"), _r5("with_predicate", "retry predicate"), _r5("with_budget", "retry budget"),
+               _r5("with_budget_predicate_dynamic_max", "budget + predicate + per-request max_attempts", tiers=("thorough",))],
+    functions=["tower_resilience_retry::Retry::{new,poll_ready,call}", "RetryPolicy::{should_retry,next_backoff}", "MaxAttemptsSource::get_max_attempts"],
+    bounds="one request, max_attempts <= 3, <= 3 inner outcomes, backoff <= 10 s per retry",
+    outside="max_attempts > 3; several requests sharing one budget (their interleavings act only through the budget: C08 + this per-request protocol); listeners",
+    assumptions=["tokio::time::sleep replaced by the virtual-clock model; inner futures complete at their first poll", "the budget is a harness object answering try_withdraw symbolically (the real budgets are C08)"],
+)
+
+# ---------------------------------------------------------------------------
 # C08 retry budgets
 # ---------------------------------------------------------------------------
 _c08 = lambda n, what, bound, **kw: H("budget::verif_kani_in_budget::" + n, RETRY, what, bound, models=("rand",),
@@ -131,6 +308,35 @@ NOT_APPLICABLE = {
            "containers would verify nothing the statement says (DESIGN.md section 6)",
 }
 MANIFEST_TEXT = {
+    "C03": {
+        "text": "Bounded model checking of the real Circuit state machine, one inductive step from an ARBITRARY open state (any window contents, "
+                "any configuration, any clock value): try_acquire is false and leaves state and timer untouched for every instant before "
+                "last_transition + wait_duration_in_open (boundary included) and moves to half-open afterwards; outcomes recorded while open "
+                "never close the breaker or move the timer; every transition into open stamps the current instant (C04 step harness). Because "
+                "every operation runs under the breaker mutex, one-step results from arbitrary states cover all histories and all numbers of callers.",
+        "note": "Kernel level: 'try_acquire returned false => inner service untouched / fallback runs' is the call()-level wiring (lib.rs), covered by "
+                "the protocol harness when present, otherwise by reading. Trusted: Kani/CBMC, Instant::now and catch_unwind stubs, the "
+                "representation invariant used for arbitrary pre-states (window <= 3 entries).",
+        "design_ref": "DESIGN.md 4/C03",
+    },
+    "C04": {
+        "text": "Bounded model checking of every Circuit operation (record_success/failure, try_acquire, force_open, force_closed, reset) as one "
+                "step from an arbitrary state of any kind (closed/open/half-open), both window types, all configurations in the bound: only the "
+                "documented transitions happen, closed->open exactly when the post-window has minimum calls, is full (count-based) and a rate "
+                "reaches its threshold (f64 compared bit-exactly), the count-based window holds the last N calls, every transition updates state, "
+                "lock-free mirror, timer and counters together, reset empties the window, metrics() equals the window.",
+        "note": "Inductive one-step formulation (multi-step harnesses over the VecDeque windows exhaust 16 GB of solver memory); the representation "
+                "invariant of arbitrary pre-states is part of the claim; window sizes <= 3; custom classifier not covered at kernel level.",
+        "design_ref": "DESIGN.md 4/C04",
+    },
+    "C09": {
+        "text": "Inductive step (same harness family as C04) showing that with non-overlapping trial calls at most permitted_calls_in_half_open are "
+                "admitted per half-open period and the breaker then decides; plus witness harnesses for the recorded finding: when admitted trial "
+                "calls are still in flight further callers are admitted too (KNOWN-FINDING, not repaired).",
+        "note": "The overlapping-callers clause of C09 does NOT hold on this tree (known_findings.json); the check reports it as KNOWN-FINDING and "
+                "still fails on any other violation. Trusted as for C04.",
+        "design_ref": "DESIGN.md 4/C09, 5",
+    },
     "C08": {
         "text": "Rely/guarantee bounded model checking of the real try_withdraw/deposit code of both budgets with instrumented atomics: before every "
                 "atomic step the solver may replace the balance (and the AIMD limit) by ANY invariant-satisfying value (= any number of concurrent "
